@@ -1,7 +1,380 @@
-//! C24 — not implemented yet.
-use vmon::report::Args;
+//! C24 — index coverage is never claimed for data the index did not see.
+//!
+//! Generator: an index party (create_index on `v`/`w` from a current or stale handle, or
+//! optimize_indices over an existing index with unindexed fragments) races with writers that
+//! rewrite the indexed column or move rows: partial-schema merge_insert (RewriteColumns),
+//! data replacement (`Operation::DataReplacement` through `Dataset::commit`), compaction (with /
+//! without deferred remap), update (RewriteRows), full merge_insert, delete, append. Fixed
+//! scenarios (the DESIGN §6 one first) are run in **every** commit order (`ActorOrder`
+//! permutations); random mixes additionally under uniform / PCT / round-robin schedules.
+//!
+//! Oracle: on every version committed in the concurrent phase, for every user index and a battery
+//! of equality / range / IN predicates on its column: ids(with index) == ids(use_scalar_index =
+//! false); a difference is attributed to its fragment through `_rowaddr` and classified by whether
+//! the index's fragment bitmap claims that fragment. The rows themselves are checked against
+//! strict serial replay (C03 checker), so the unindexed baseline is itself validated.
 
-pub fn run(_args: &Args) -> i32 {
-    eprintln!("HARNESS-ERROR C24 not implemented");
-    2
+use crate::c04::witness;
+use crate::engine::*;
+use serde_json::json;
+use vmon::prng::Rng;
+use vmon::report::{Args, Report};
+use vmon::table::{Actor, IdAlloc};
+
+const SCENARIOS: [&str; 10] = [
+    "stale_create_after_merge_col", // DESIGN §6
+    "create_vs_merge_col",
+    "optimize_vs_merge_col",
+    "create_vs_data_replacement",
+    "optimize_vs_data_replacement",
+    "create_vs_compaction",
+    "optimize_vs_compaction",
+    "stale_create_after_data_replacement",
+    "random_mix",
+    "random_mix",
+];
+
+fn sample_ids(rng: &mut Rng, n: i64, k: usize) -> Vec<i64> {
+    let mut v: Vec<i64> = rng.sample_indices(n as usize, k.min(n as usize)).into_iter().map(|x| x as i64).collect();
+    v.sort();
+    v
+}
+
+/// ids for a column rewrite that leaves at least one fragment untouched (so that the index keeps
+/// some coverage and the query battery stays meaningful)
+fn rewrite_ids(rng: &mut Rng, frags: usize, rpf: usize) -> Vec<i64> {
+    let spare = rng.usize_below(frags);
+    let pool: Vec<i64> = (0..(frags * rpf) as i64).filter(|i| frags == 1 || (*i as usize) / rpf != spare).collect();
+    let k = rng.urange(1, 5.min(pool.len()));
+    let mut v: Vec<i64> = rng.sample_indices(pool.len(), k).into_iter().map(|i| pool[i]).collect();
+    v.sort();
+    v
+}
+
+fn writer_op(rng: &mut Rng, kind: &str, col: &'static str, frags: usize, rpf: usize, alloc: &mut IdAlloc) -> Op {
+    let n = (frags * rpf) as i64;
+    match kind {
+        "merge_col" => Op::MergeCol { ids: rewrite_ids(rng, frags, rpf), col, salt: rng.next_u64() | 1, retries: None },
+        "merge_col_other" => Op::MergeCol { ids: rewrite_ids(rng, frags, rpf), col: if col == "v" { "w" } else { "v" }, salt: rng.next_u64() | 1, retries: None },
+        "data_replacement" => {
+            let f = rng.usize_below(frags);
+            Op::ReplaceV { frag: f as u64, ids: ((f * rpf) as i64..((f + 1) * rpf) as i64).collect(), salt: rng.next_u64() | 1 }
+        }
+        "compact" => Op::Compact { defer_remap: false },
+        "compact_defer" => Op::Compact { defer_remap: true },
+        "update" => Op::Update { pred: IdPred::In(sample_ids(rng, n, 3)), add: rng.range(1, 9), set_w: if rng.bool() { Some(rng.range(10, 20) as i32) } else { None }, retries: None },
+        "merge_upsert" => {
+            let mut ids = sample_ids(rng, n, 2);
+            ids.extend(alloc.take(2));
+            Op::Merge { ids, salt: rng.next_u64() | 1, insert: true, retries: None }
+        }
+        "delete" => Op::Delete { pred: IdPred::In(sample_ids(rng, n, 2)), retries: None },
+        _ => Op::Append { ids: alloc.take(rng.urange(1, 4)), salt: rng.next_u64() | 1 },
+    }
+}
+
+pub fn gen_case(seed: u64, idx: u64) -> (HistorySpec, &'static str) {
+    let mut rng = Rng::for_case(seed, idx);
+    let scenario = SCENARIOS[(idx % SCENARIOS.len() as u64) as usize];
+    let frags = rng.urange(2, 4);
+    let rpf = *rng.pick(&[6usize, 10]);
+    let col: &'static str = if rng.chance(3, 4) { "v" } else { "w" };
+    // stable row ids make compaction keep row ids; without them compaction remaps the index
+    let stable = rng.chance(1, 3);
+    let mut pre_alloc = IdAlloc::new(8);
+    let mut a1 = IdAlloc::new(1);
+    let mut a2 = IdAlloc::new(2);
+    let mut a3 = IdAlloc::new(3);
+    let mut pre_ops = vec![];
+    let mut actors: Vec<(u64, Op)> = vec![];
+    let create = Op::CreateIndex { col, name: "idx".into() };
+    // setup for optimize scenarios: an index plus unindexed data
+    let optimize_setup = |rng: &mut Rng, pre_ops: &mut Vec<Op>, pre_alloc: &mut IdAlloc| {
+        pre_ops.push(Op::CreateIndex { col, name: "idx".into() });
+        pre_ops.push(Op::Append { ids: pre_alloc.take(rng.urange(2, 5)), salt: 91 });
+    };
+    let far = u64::MAX; // clamped to the latest version by the runner
+    match scenario {
+        "stale_create_after_merge_col" => {
+            pre_ops.push(Op::MergeCol { ids: rewrite_ids(&mut rng, frags, rpf), col, salt: rng.next_u64() | 1, retries: None });
+            actors.push((1, create.clone()));
+            if rng.chance(1, 3) {
+                actors.push((far, writer_op(&mut rng, "append", col, frags, rpf, &mut a2)));
+            }
+        }
+        "stale_create_after_data_replacement" => {
+            let f = rng.usize_below(frags);
+            pre_ops.push(Op::ReplaceV { frag: f as u64, ids: ((f * rpf) as i64..((f + 1) * rpf) as i64).collect(), salt: rng.next_u64() | 1 });
+            actors.push((1, create.clone()));
+        }
+        "create_vs_merge_col" => {
+            actors.push((far, create.clone()));
+            actors.push((far, writer_op(&mut rng, "merge_col", col, frags, rpf, &mut a2)));
+        }
+        "optimize_vs_merge_col" => {
+            optimize_setup(&mut rng, &mut pre_ops, &mut pre_alloc);
+            actors.push((far, Op::OptimizeIndices));
+            actors.push((far, writer_op(&mut rng, "merge_col", col, frags, rpf, &mut a2)));
+        }
+        "create_vs_data_replacement" => {
+            actors.push((far, create.clone()));
+            actors.push((far, writer_op(&mut rng, "data_replacement", col, frags, rpf, &mut a2)));
+        }
+        "optimize_vs_data_replacement" => {
+            optimize_setup(&mut rng, &mut pre_ops, &mut pre_alloc);
+            actors.push((far, Op::OptimizeIndices));
+            actors.push((far, writer_op(&mut rng, "data_replacement", col, frags, rpf, &mut a2)));
+        }
+        "create_vs_compaction" => {
+            if rng.bool() {
+                pre_ops.push(Op::Delete { pred: IdPred::In(sample_ids(&mut rng, (frags * rpf) as i64, 2)), retries: None });
+            }
+            actors.push((far, create.clone()));
+            let k = if rng.bool() { "compact" } else { "compact_defer" };
+            actors.push((far, writer_op(&mut rng, k, col, frags, rpf, &mut a2)));
+        }
+        "optimize_vs_compaction" => {
+            optimize_setup(&mut rng, &mut pre_ops, &mut pre_alloc);
+            actors.push((far, Op::OptimizeIndices));
+            let k = if rng.bool() { "compact" } else { "compact_defer" };
+            actors.push((far, writer_op(&mut rng, k, col, frags, rpf, &mut a2)));
+        }
+        _ => {
+            // random mix: index party + 1-2 writers, optional pre-existing index
+            let with_existing = rng.bool();
+            if with_existing {
+                optimize_setup(&mut rng, &mut pre_ops, &mut pre_alloc);
+            }
+            if rng.bool() {
+                let k = *rng.pick(&["merge_col", "update", "delete", "data_replacement"]);
+                pre_ops.push(writer_op(&mut rng, k, col, frags, rpf, &mut pre_alloc));
+            }
+            let base = 1 + pre_ops.len() as u64;
+            let idx_op = if with_existing {
+                if rng.bool() { Op::OptimizeIndices } else { Op::CreateIndex { col: if col == "v" { "w" } else { "v" }, name: "idx_b".into() } }
+            } else {
+                create.clone()
+            };
+            let rv = if rng.chance(1, 2) { rng.range(1, base as i64) as u64 } else { far };
+            actors.push((rv, idx_op));
+            let kinds = ["merge_col", "merge_col", "merge_col_other", "data_replacement", "compact", "compact_defer", "update", "merge_upsert", "delete", "append"];
+            let nw = rng.urange(1, 2);
+            for w in 0..nw {
+                let k = *rng.pick(&kinds);
+                let alloc = if w == 0 { &mut a2 } else { &mut a3 };
+                let rv = if rng.chance(1, 3) { rng.range(1, base as i64) as u64 } else { far };
+                actors.push((rv, writer_op(&mut rng, k, col, frags, rpf, alloc)));
+            }
+        }
+    }
+    let _ = &mut a1;
+    // a ReplaceV on a fragment whose file layout a setup op already changed would be rejected by
+    // the harness precondition; keep it anyway (counted as rejected)
+    let n_act = actors.len();
+    let perms = permutations(n_act);
+    let round = idx / SCENARIOS.len() as u64;
+    let strategy = if scenario != "random_mix" || round % 2 == 0 {
+        // every commit order, round robin over the permutations
+        match round % (perms.len() as u64 + 2) {
+            r if (r as usize) < perms.len() => StratSpec::ActorOrder(perms[r as usize].clone()),
+            r if r as usize == perms.len() => StratSpec::Uniform(rng.next_u64()),
+            _ => StratSpec::RoundRobin,
+        }
+    } else {
+        match rng.below(3) {
+            0 => StratSpec::Uniform(rng.next_u64()),
+            1 => StratSpec::Pct(rng.next_u64(), rng.urange(1, 3)),
+            _ => StratSpec::RoundRobin,
+        }
+    };
+    (
+        HistorySpec {
+            name: format!("c24-{seed}-{idx}-{scenario}"),
+            stable_row_ids: stable,
+            v2_manifest_paths: false,
+            frags,
+            rows_per_frag: rpf,
+            pre_ops,
+            actors,
+            strategy,
+        },
+        scenario,
+    )
+}
+
+async fn one_case(report: &Report, seed: u64, idx: u64, corrupt: bool) -> Option<bool> {
+    let (spec, scenario) = gen_case(seed, idx);
+    let out = match run_history(&spec, WATCHDOG).await {
+        Ok(o) => o,
+        Err(e) => {
+            report.count("setup_failures", 1);
+            if std::env::var("E_CONC_DEBUG").is_ok() {
+                eprintln!("setup failure case {idx} ({scenario}): {e}");
+            }
+            if report.counter("setup_failures") > 50 {
+                report.harness_error(&format!("setup failed repeatedly: {e}"));
+            }
+            return None;
+        }
+    };
+    if out.sched.watchdog_fired {
+        report.inconclusive(&format!("watchdog fired in case {idx}"));
+        report.count("watchdog_fired", 1);
+        report.case(None);
+        return None;
+    }
+    let facts = log_facts(&out.events);
+    let sc = check_serial(&out, None).await;
+    if let Some(e) = &sc.harness_error {
+        report.harness_error(&format!("case {idx}: {e}"));
+        return None;
+    }
+    count_history(report, &out, &facts);
+    note_interleaving(&out, &facts);
+    report.count(&format!("scenario_{scenario}"), 1);
+    report.count("rows_compared", sc.rows_compared);
+    for r in &out.results {
+        report.count(&format!("op_{}_{}", r.op.kind(), if r.result.is_ok() { "ok" } else { "err" }), 1);
+        if let Err((c, _)) = &r.result {
+            if c == "InvalidInput" || c == "NotSupported" {
+                report.rejected();
+            } else if !is_conflict_class(c) {
+                report.count(&format!("diagnostic_error_class_{c}_{}", r.op.kind()), 1);
+            }
+        }
+    }
+    let mut findings = sc.findings.clone();
+    let mut used_index = 0u64;
+    let mut covered = 0u64;
+    let mut indices_seen = 0u64;
+    if findings.is_empty() {
+        let reader = Actor::new(out.world.new_actor(0));
+        let kinds: Vec<&str> = {
+            let mut k: Vec<&str> = out.spec.pre_ops.iter().map(|o| o.kind()).chain(out.results.iter().filter(|r| r.result.is_ok()).map(|r| r.op.kind())).collect();
+            k.sort();
+            k.dedup();
+            k
+        };
+        let ctx = kinds.join("+");
+        let mut versions: Vec<u64> = sc.commit_order.iter().map(|x| x.0).collect();
+        if versions.is_empty() {
+            versions.push(sc.final_version);
+        }
+        for v in versions {
+            let ds = match reader.open_version(&out.uri, v).await {
+                Ok(d) => d,
+                Err(e) => {
+                    findings.push(Finding { signature: "version-unreadable-after-index-race".into(), what: format!("v{v}: {e}"), detail: json!({}) });
+                    break;
+                }
+            };
+            let is_last = v == sc.final_version;
+            match check_index_coverage(&ds, &ctx, corrupt && is_last).await {
+                Ok((f, st)) => {
+                    report.count("index_queries_compared", st.queries);
+                    report.count("index_queries_using_index", st.queries_using_index);
+                    report.count("index_rows_compared", st.rows_compared);
+                    report.count("versions_index_checked", 1);
+                    if is_last {
+                        used_index = st.queries_using_index;
+                        covered = st.covered_fragments;
+                        indices_seen = st.indices;
+                    }
+                    if !f.is_empty() {
+                        findings.extend(f.into_iter().map(|mut x| {
+                            x.what = format!("v{v}: {}", x.what);
+                            x
+                        }));
+                        break;
+                    }
+                }
+                Err(e) => {
+                    findings.push(Finding {
+                        signature: "query-fails-after-index-race".into(),
+                        what: format!("v{v}: query failed: {e}"),
+                        detail: json!({}),
+                    });
+                    break;
+                }
+            }
+        }
+    }
+    if corrupt {
+        return Some(!findings.is_empty() && indices_seen > 0);
+    }
+    for f in &findings {
+        report.violation(&f.signature, &f.what, witness(&out, seed, idx, json!({"scenario": scenario}), f));
+    }
+    // non-trivial: an index with live coverage exists at the end, queries used it, and a
+    // column-rewriting / row-moving / layout-changing op of the history committed
+    let writer_committed = out.spec.pre_ops.iter().any(|o| !matches!(o, Op::CreateIndex { .. } | Op::Append { .. }))
+        || out.results.iter().any(|r| r.result.is_ok() && !matches!(r.op, Op::CreateIndex { .. } | Op::OptimizeIndices));
+    let index_committed = out.results.iter().any(|r| matches!(r.result, Ok(Some(_))) && matches!(r.op, Op::CreateIndex { .. } | Op::OptimizeIndices));
+    let nontrivial = indices_seen > 0 && covered > 0 && used_index > 0 && writer_committed && index_committed;
+    if indices_seen > 0 && covered == 0 {
+        report.count("histories_index_without_live_coverage", 1);
+    }
+    if index_committed && writer_committed {
+        report.count("histories_index_and_writer_both_committed", 1);
+    }
+    report.case(if nontrivial { Some(shape_hash(&out)) } else { None });
+    if nontrivial && report.want_sample() && idx % 11 < 2 {
+        report.sample(json!({
+            "case": idx, "scenario": scenario,
+            "history": out.spec.describe(),
+            "results": out.results.iter().map(|r| r.describe()).collect::<Vec<_>>(),
+            "commit_order": sc.commit_order.iter().map(|(v,i,_)| json!({"version": v, "actor": out.results[*i].actor, "op": out.results[*i].op.kind()})).collect::<Vec<_>>(),
+            "covered_fragments_at_end": covered,
+        }));
+    }
+    None
+}
+
+pub fn run(args: &Args) -> i32 {
+    let seed = args.seed;
+    if args.extra.contains_key("selftest") {
+        let rt = tokio::runtime::Builder::new_current_thread().enable_all().build().unwrap();
+        let report = Report::new(args, "exploration", "selftest", (60, 60));
+        let (mut fired, mut tried) = (0, 0);
+        for idx in 0..20u64 {
+            if let Some(f) = rt.block_on(one_case(&report, seed, idx, true)) {
+                tried += 1;
+                if f {
+                    fired += 1;
+                }
+            }
+        }
+        println!("SELFTEST C24 damaged-indexed-answer detected {fired}/{tried}");
+        return if tried > 0 && fired * 10 >= tried * 7 { 0 } else { 2 };
+    }
+    let report = Report::new(
+        args,
+        "exploration",
+        "index party (create_index / optimize_indices, current or stale handle) x writers (partial-schema merge_insert, data replacement, compaction, update, merge_insert, delete, append): fixed scenarios in every commit order + random mixes under uniform/PCT/round-robin schedules; non-trivial iff index build and a writer both committed, the final index covers a live fragment and the query battery used it; distinct = hash(ops, read versions, results, released storage-call sequence)",
+        (50, 900),
+    )
+    .with_min_nontrivial(30);
+    let max_cases = args.tier.pick(2_000, 100_000);
+    if let Some(c) = args.extra.get("case").and_then(|c| c.parse::<u64>().ok()) {
+        let rt = tokio::runtime::Builder::new_current_thread().enable_all().build().unwrap();
+        rt.block_on(one_case(&report, seed, c, false));
+        return report.finish();
+    }
+    if let Some(path) = &args.replay {
+        let txt = std::fs::read_to_string(path).unwrap_or_default();
+        let v: serde_json::Value = serde_json::from_str(&txt).unwrap_or_default();
+        let seed = v["witness"]["seed"].as_u64().unwrap_or(args.seed);
+        let idx = v["witness"]["case_index"].as_u64().unwrap_or(0);
+        let rt = tokio::runtime::Builder::new_current_thread().enable_all().build().unwrap();
+        for _ in 0..5 {
+            rt.block_on(one_case(&report, seed, idx, false));
+        }
+        return report.finish();
+    }
+    let r = &report;
+    run_parallel(r, 16, max_cases, |i| async move {
+        one_case(r, seed, i, false).await;
+    });
+    publish_interleavings(&report);
+    report.finish()
 }
